@@ -44,6 +44,15 @@ Theorem C22_chunks_are_declaration_order :
     concat (chunk k cells) = cells /\ Forall (fun r => (1 <= length r <= k)%nat) (chunk k cells).
 Proof. exact (fun k cells H => conj (thm_chunk_concat k cells H) (thm_chunk_rows k cells H)). Qed.
 
+(* layoutDynamic's groups come from GenLayout(objects, cutIndices): for ANY cut indices below the number of
+   cells (sorted or not, repeated or not -- whatever fastLayout / iterDivisions produce) the rows
+   concatenated are the cells in declaration order, and there are exactly cuts+1 rows. *)
+Theorem C22_gen_layout_is_ordered_partition :
+  forall (cells : list size) (cuts : list nat),
+    Forall (fun c => (c < length cells)%nat) cuts ->
+    concat (gen_layout cells cuts) = cells /\ length (gen_layout cells cuts) = S (length cuts).
+Proof. exact (thm_gen_layout (A := size)). Qed.
+
 (* The layout keeps the grouping: as many boxes per group as cells, in the same order (the i-th box of the
    j-th group belongs to the i-th cell of the j-th group) ... *)
 Theorem C22_layout_keeps_order :
@@ -135,12 +144,17 @@ Example C22_structure_hyps_satisfiable :
   let R := dynamic_nf 40 40 [[(10, 20); (30, 5)]; [(7, 7)]] in
   nonneg_boxes_b R = true /\ rows_ok_b 0 40 40 0 0 R = true.
 Proof. split; vm_compute; reflexivity. Qed.
+Example C22_gen_layout_hyps_satisfiable :
+  Forall (fun c => (c < 8)%nat) [0; 2; 6]%nat /\
+  gen_layout [0; 1; 2; 3; 4; 5; 6; 7]%nat [0; 2; 6]%nat = [[0]; [1; 2]; [3; 4; 5; 6]; [7]]%nat.
+Proof. split; [repeat constructor | reflexivity]. Qed.
 Example C22_sep_hyps_satisfiable : sep 40 40 (mkbox 0 0 10 20) (mkbox 50 0 30 20).
 Proof. left. vm_compute. discriminate. Qed.
 
 Print Assumptions C22_capacity_covers.
 Print Assumptions C22_single_dimension.
 Print Assumptions C22_chunks_are_declaration_order.
+Print Assumptions C22_gen_layout_is_ordered_partition.
 Print Assumptions C22_layout_keeps_order.
 Print Assumptions C22_cells_never_shrink.
 Print Assumptions C22_exact_gaps_and_row_alignment.
